@@ -48,6 +48,12 @@ CHECKS.update({
  "C14": ("model_checking", "E5 scheduler over real OS threads", "stateless exhaustive exploration of all interleavings of salt draws of 2-4 real OS threads under a token-passing scheduler (hook points before/after each draw and at API boundaries), plus sequential histories and a cross-process run, all salts and decoy digests of the run in one set",
    "Every interleaving of 6 (quick) / 10 (thorough) thread configurations is executed on the real issuer (11,400 schedules quick); per run and across the whole check every salt must be base64url of >= 16 bytes, all salts and decoy digests pairwise distinct, every embedded digest the SHA-256 of its disclosure text, no decoy the hash of a disclosure's salt. Sequential histories 1..16 instances, 16 free-running threads (auxiliary), 2 processes started together. Unpredictability itself is outside the family: an 8-sigma per-bit frequency monitor is reported as auxiliary statistics.",
    "real threads because the generator is thread_local!; interleavings inside one RNG call are not explored; rand::ThreadRng quality is trusted", "4 C14"),
+ "C07": ("exploration", "E6 robust (worker subprocesses)", "exhaustive enumeration of input grammars per entry point (token-alphabet strings, JSON-form assignments, single-position type substitutions, signed ill-formed structures, selector JSON, issuer inputs, deepest inputs) executed in isolated worker processes with crash attribution and a watchdog",
+   "Quick: all 402k strings of length <= 5 over a 13-token structural alphabet and 60k JSON-form member assignments given to verifier (with/without key-binding expectation) and holder (+4 selections, +KB); 2.6k type substitutions in header/payload/disclosures of valid tokens (signed and unsigned); the C08 space; 2.7k selector JSONs x 198 full and partial SD-JWTs; 10.7k issuer inputs (all JSON values <= 3 nodes, alphabets incl. reserved names, chains to depth 64, path catalogue); 84 deep inputs around serde_json's recursion limit on the 8 MB main-thread stack. Thorough: length <= 6 (5.2M strings), selectors <= 4 nodes, C08 pairs. Oracle: no panic (catch_unwind), worker alive, watchdog silent. A 100k/1M random-string sweep is auxiliary sampling.",
+   "'any byte string' is replaced by complete enumeration of structural grammars; non-termination detected by watchdog only", "4 C07"),
+ "C10": ("exploration", "relational transcoding over E1/E2/E3 spaces", "exhaustive enumeration of (JWT, disclosure list, KB-JWT) triples from the honest, tampered, adversarial-list, key-binding-attack and ill-formed spaces, each verified in compact and 2-4 JSON renderings with identical arguments",
+   "Same accept/reject and equal claims required between the compact form and every JSON rendering (kb_jwt absent/null/\"\", unknown extra members) for: S(3,3) honest presentations under rotating 36 cfgs (holders built from the issued and the transcoded form must select the same disclosures), the C02 structural catalogue + 120 character edits on 36 bases under right/other key, C03 list families on S(3,2), the whole C04 composition space for ES256 and EdDSA holder keys, the C08 space. Issuer outputs of both formats must project to the same structure.",
+   "triples containing '~' inside a part are not expressible in compact form and are skipped", "4 C10"),
 })
 NOT_YET = {}
 def main():
